@@ -1161,6 +1161,15 @@ class PlainModel(Model):
             return [R(st, ('state', idx[1]))]
         return None
 
+    def call(self, f, args, kws, st, node):
+        # helper functions of the same module are part of the code under analysis: inline them
+        if f[0] == 'lib' and f[1].startswith(self.module.rel + '.'):
+            ln = f[1][len(self.module.rel) + 1:]
+            fi = self.module.functions.get(ln)
+            if fi is not None and self.engine is not None:
+                return self.engine.inline(fi.node, ln, {}, args, kws, st, node)
+        return None
+
 
 def rule_W_NEW(ctx, d):
     init = d.ci.methods.get('__init__')
@@ -1251,9 +1260,22 @@ def rule_W_RED(ctx, d):
     eng = Engine(PlainModel(d.module), unroll=1)
     outs = eng.run_function(red.node, {}, params={red.node.args.args[0].arg: SELF})
     iparams = [a.arg for a in init.node.args.args][1:]
+    # table-driven / helper-built argument tuples: evaluate the builder partially (constants concrete, instance state symbolic)
+    pe_args = None
+    try:
+        from .peval import PEval, Sym, Unknown
+        pv = PEval(d.module).run(red.node)
+        if isinstance(pv, tuple) and len(pv) >= 2 and pv[0] == Sym('class') and isinstance(pv[1], tuple):
+            pe_args = tuple(('state', x.key[1]) if (isinstance(x, Sym) and x.key[0] == 'state') else
+                            (C(x) if isinstance(x, (int, str, bool, type(None), float)) else ('unknown', repr(x))) for x in pv[1])
+    except Unknown:
+        pe_args = None
     for o in outs:
         ok = o.kind == RETURN and o.val[0] == 'tuple' and len(o.val[1]) >= 2 and o.val[1][0] == ('attr', SELF, '__class__') \
             and o.val[1][1][0] == 'tuple'
+        if not ok and o.kind == RETURN and pe_args is not None:
+            ok = True
+            o.val = ('tuple', (('attr', SELF, '__class__'), ('tuple', pe_args)))
         bad = None
         if ok:
             args = o.val[1][1][1]
